@@ -1,4 +1,5 @@
 import DiffxVerif.Properties.C03
+import DiffxVerif.Properties.C03File
 #print axioms Diffx.C03.C03_blank_lines
 #print axioms Diffx.C03.C03_container
 #print axioms Diffx.C03.C03_main
@@ -9,3 +10,19 @@ import DiffxVerif.Properties.C03
 #print axioms Diffx.C03.C03_content
 #print axioms Diffx.C03.C03_content_diff
 #print axioms Diffx.C03.C03_content_preamble
+#print axioms Diffx.C03.C03_sim_step
+#print axioms Diffx.C03.C03_sim_prefix
+#print axioms Diffx.C03.C03_file
+#print axioms Diffx.C03.C03_file_trailing
+#print axioms Diffx.C03.C03_file_length
+#print axioms Diffx.C03.C03_file_first
+#print axioms Diffx.C03.C03_file_opts
+#print axioms Diffx.C03.C03_raw_terminated_auto
+#print axioms Diffx.C03.C03_reject_version
+#print axioms Diffx.C03.C03_reject_length
+#print axioms Diffx.C03.fileDoc_wf
+#print axioms Diffx.C03.fileRecords_eq
+#print axioms Diffx.C03.C03_file_instance
+#print axioms Diffx.C03.C03_file_instance_lf
+#print axioms Diffx.C03.C03_reject_instance
+#print axioms Diffx.C03.intEncDoc_wf
